@@ -55,6 +55,7 @@ type Contract struct {
 	Text     []string // raw lines (hash for the ledger)
 	Cover    bool
 	NoFrame  bool
+	SeqLens  map[string]string // parameter -> length (number or spec constant)
 	Borrowed []string // results whose memory belongs to the callee's side (must not be written by the caller)
 	BVNames  []string
 	Theories []string          // axiom theories assumed in this function's obligations
@@ -233,7 +234,7 @@ func (u *Universe) loadDeps(dir string) error {
 
 var clauseWords = map[string]bool{"requires": true, "ensures": true, "modifies": true, "panics": true,
 	"loop": true, "repr": true, "inline": true, "props": true, "opaque": true, "unroll": true, "note": true, "induct": true, "ihsubst": true, "cover": true,
-	"bv": true, "intvar": true, "theory": true, "returns": true, "decreases": true, "fieldmode": true, "variant": true, "let": true, "use": true, "check": true, "noframe": true, "borrowed": true, "specialize": true}
+	"bv": true, "intvar": true, "theory": true, "returns": true, "decreases": true, "fieldmode": true, "variant": true, "let": true, "use": true, "check": true, "seqlen": true, "noframe": true, "borrowed": true, "specialize": true}
 
 func (u *Universe) parseContractFile(path, pkgPath string, deps bool) error {
 	data, err := os.ReadFile(path)
@@ -597,6 +598,17 @@ func (u *Universe) parseContractFile(path, pkgPath string, deps bool) error {
 			lastClause = nil
 		case "borrowed":
 			curC.Borrowed = append(curC.Borrowed, strings.Fields(rest)...)
+			lastClause = nil
+		case "seqlen":
+			// seqlen PARAM N|CONST: a slice-of-slices parameter with exactly that many elements
+			f := strings.Fields(rest)
+			if len(f) != 2 {
+				return fmt.Errorf("%s: bad seqlen clause", where)
+			}
+			if curC.SeqLens == nil {
+				curC.SeqLens = map[string]string{}
+			}
+			curC.SeqLens[f[0]] = f[1]
 			lastClause = nil
 		case "specialize":
 			f := strings.Fields(rest)
